@@ -23,8 +23,9 @@ vars == <<l, bad, st>>
 
 WellFormed(rec) ==
   LET c == rec.c IN
-  /\ IsDiagonal(c.H)
-  /\ \A f \in 1..c.T : \A i \in 1..c.N : \A k \in 1..c.d : (c.x[f][i][k] - c.xu[f][i][k]) % BoxLen(c, k) = 0
+  /\ rec.op = "s4" => IsDiagonal(c.H)
+  /\ \A f \in 1..c.T : \A i \in 1..c.N : \A k \in 1..c.d :
+        FracNum(c.H, VSub(c.x[f][i], c.xu[f][i]))[k] % FracDen(c.H) = 0
   /\ c.mode = "x" => WrapConsistent(c)
   /\ \A f \in 1..c.T : \E i \in 1..c.N : c.cond[f][i] = 1
   /\ \A f \in 1..c.T : \A i \in 1..c.N : Len(c.nb[f][i]) >= 1
